@@ -147,6 +147,41 @@ def judgeParse (c : Case) (o : ObsLine) : Verdict :=
   | "err" => .disagree "rejected" ((c.exp.getStr?).toOption.getD "") ("ERR " ++ o.code)
   | _ => .crash s!"{o.st}: {o.code}"
 
+/-- all binary operator trees with `n` leaves (explicitly parenthesised) -/
+partial def allTrees (leaves : List Str) : List Expr :=
+  match leaves with
+  | [] => []
+  | [t] => [.leaf t]
+  | _ =>
+    (List.range (leaves.length - 1)).flatMap fun k =>
+      let ls := allTrees (leaves.take (k + 1))
+      let rs := allTrees (leaves.drop (k + 1))
+      ls.flatMap fun l => rs.flatMap fun r => [Op3.AND, Op3.OR, Op3.XOR].map fun o => Expr.comb o l r
+
+/-- exhaustive: every operator-tree shape with up to four values and every assignment of the three
+    operators, as the content of one component; plus the same-operator chains of three and four -/
+def exhaustiveTreeCases (tagp : String) : Array Case := Id.run do
+  let names := ["alpha one", "beta two", "gamma three", "delta four"].map String.toList
+  let mut out : Array Case := #[]
+  let mut k := 0
+  for n in [2, 3, 4] do
+    for e in allTrees (names.take n) do
+      let s := Stmt.mk [Part.ann { sym := Sym.Bdir } true e, Part.ann { sym := Sym.A } true (.leaf (str "actor"))]
+      let c := parseCase s!"{tagp}-x{k}" "exhaustive-trees" s
+      out := out.push { c with note := Json.mkObj [("kf", ("" : Json))] }
+      k := k + 1
+  for o in [Op3.AND, Op3.OR, Op3.XOR] do
+    for n in [3, 4] do
+      let ls := (names.take n).map Expr.leaf
+      let e := match ls with
+        | a :: b :: rest => Expr.chain o a b rest
+        | _ => Expr.leaf []
+      let s := Stmt.mk [Part.ann { sym := Sym.I } false e]
+      let c := parseCase s!"{tagp}-xc{k}" "exhaustive-chains" s
+      out := out.push { c with note := Json.mkObj [("kf", ("" : Json))] }
+      k := k + 1
+  pure out
+
 /-- every ordered pair of nesting-capable symbols, as two plain nested statements and as two
     nested-statement combinations: each must land under its own component whatever precedes it
     (C02), and the order of the two must not matter (C18) -/
